@@ -150,6 +150,10 @@ def gen_readers_plan(seed, rng, tier):
             "gitlinks": random.Random(derive_seed(seed, "c10gl")).random()
             < 0.3,
             "writer": writer,
+            # another housekeeping process sweeping stale temporary files
+            # (default grace period) while the maintainer lands its packs
+            "pruner": random.Random(derive_seed(seed, "c10pr")).random()
+            < 0.3,
             "n_commits": rng.randint(2, 5),
             "layout": rng.choice(["loose", "mixed", "mixed", "two_packs",
                                   "packed"]),
@@ -746,8 +750,28 @@ def run_readers(plan):
                     raise
             finally:
                 r.close()
+        def pruner_body(a):
+            r = Repo(rp)
+            try:
+                for _ in range(3):
+                    # nothing in this run is older than a few seconds of
+                    # virtual time: a sweep with the default grace period
+                    # has nothing it may remove
+                    try:
+                        r.object_store.prune()
+                    except OSError:
+                        # a temporary file it had listed was renamed into
+                        # place by the maintainer before it looked at it:
+                        # the sweep dies, nothing is lost -- robustness, not
+                        # what C10 promises (counted)
+                        sim.stat("pruner_step_failed")
+                    sim.stat("probe:temp_file_sweep_during_maintenance")
+            finally:
+                r.close()
         if plan.get("writer"):
             sim.actor("writer", writer_body)
+        if plan.get("pruner"):
+            sim.actor("pruner", pruner_body)
         sim.actor("maint", maint)
         for spec in plan["readers"]:
             sim.actor(spec["name"], reader(spec))
